@@ -102,6 +102,12 @@ CHECKS = {
             "runs identically (exit status, stdout, last stderr line) on generated programs for 2.7 and 3.6-3.13.",
             "target CPython is ground truth; programs are deterministic; object addresses in output are normalised",
             "DESIGN.md §4 C13"),
+    "C12": ("generated programs, stdlib samples (9 CPythons) and all corpus files x six formats; totality oracle, "
+            "parse-back of classic/bytes listings against the instruction stream, stdout capture, pydisasm subprocess",
+            "Every format completes; classic/bytes listings parse back one-to-one to the instruction streams "
+            "(offset, opname, operand, '>>', line number); nothing leaks to stdout; pydisasm exits 0 with the same text.",
+            "the stream itself is C02-C05's subject; pre-2.3 line-number column (SET_LINENO driven) not compared",
+            "DESIGN.md §4 C12"),
 }
 
 NOT_YET = {}
